@@ -79,7 +79,7 @@ var txHolders = &holders{m: map[[2]int][]*store.Tx{}}
 // withIndex: open the index of the key-value entries and compare it with the recovered history (costly for databases with the
 // default limits: every store.Open / indexer allocates buffers of MaxTxEntries x MaxKeyLen bytes)
 func recoverImage(tr *storetrace.Tracer, dir string, ioConc int, acks []ack, committedAt uint64, withIndex bool, rec *recovered) {
-	pn, hung, msg := vh.Guard(60*time.Second, func() {
+	pn, hung, msg := vh.Guard(120*time.Second, func() {
 		st, err := store.Open(dir, recoveryOptions(ioConc))
 		if err != nil {
 			rec.Detail = "open: " + err.Error()
@@ -259,7 +259,7 @@ func evUint(e storetrace.Event, k string) uint64 {
 }
 
 // images: crash images of every database directory of this run + the per-store traces
-func (r *run) images(sdir string, maxPoints, workers int, out *os.File) {
+func (r *run) images(sdir string, maxPoints, maxPointsDefault, workers int, out *os.File) {
 	events, ops := r.tr.Events, r.tr.Ops
 	r.res.Count("events", len(events))
 	r.res.Count("phys-ops", len(ops))
@@ -367,9 +367,9 @@ func (r *run) images(sdir string, maxPoints, workers int, out *os.File) {
 		r.res.Count("crash-points-eligible", len(pts))
 		limit := maxPoints
 		if t.prof == "default" {
-			limit = (maxPoints + 1) / 2 // recoveries of databases with the default limits are several times more expensive
+			limit = maxPointsDefault // recoveries of databases with the default limits are several times more expensive
 		}
-		if maxPoints > 0 && len(pts) > limit {
+		if limit > 0 && len(pts) > limit {
 			keep := map[int]bool{}
 			var rest []int
 			for i, p := range pts {
@@ -435,7 +435,7 @@ func (r *run) images(sdir string, maxPoints, workers int, out *os.File) {
 				}
 				rec := &recovered{K: p.k, Mode: string(m), At: p.at, How: ep.how}
 				so.recs = append(so.recs, rec)
-				jobs <- job{dir: filepath.Join(idir, name), io: ep.ioConc, acks: acks, cAt: cAt, idx: t.prof != "default" || maxPoints == 0 || p.k%4 == 0, rec: rec}
+				jobs <- job{dir: filepath.Join(idir, name), io: ep.ioConc, acks: acks, cAt: cAt, idx: t.prof != "default" || p.k%4 == 0, rec: rec}
 			}
 		}
 	}
